@@ -545,6 +545,22 @@ func (e *Env) runRPC() error {
 				e.Res.Session = e.ReadSession()
 				e.Finish()
 			}
+		case "await-acks":
+			// wait until every content-related message the server sent has been acknowledged (or the patience is over;
+			// then the state is inspected and the parent judges)
+			deadline := time.Now().Add(e.stepPatience())
+			var missing []int64
+			for {
+				missing = e.unacked()
+				if len(missing) == 0 || time.Now().After(deadline) {
+					break
+				}
+				time.Sleep(500 * time.Microsecond)
+			}
+			if len(missing) > 0 {
+				e.Res.Notes = append(e.Res.Notes, fmt.Sprintf("unacked:%v", missing))
+				e.Res.Stall = inspectStall(0)
+			}
 		case "hold":
 			st.dir.hold(step.Hold)
 		case "sleep":
@@ -634,7 +650,7 @@ func inspectStall(blockedCallers int) *Stall {
 	switch {
 	case a1 != "" && a1 == a2 && !strings.HasPrefix(a1, "not-blocked") && c1 > 0 && c1 == c2:
 		s.Verdict = "STALL" // the receive loop is blocked handing something over and will never read again
-	case idle(a1) && idle(a2) && c1 > 0 && c1 == c2:
+	case idle(a1) && idle(a2) && c1 == c2 && (c1 > 0 || blockedCallers == 0):
 		s.Verdict = "IDLE" // the receive loop waits for input while callers wait for answers: whatever was sent to them is lost
 	default:
 		s.Verdict = "INCONCLUSIVE"
@@ -649,4 +665,24 @@ func firstFrame(g string) string {
 		}
 	}
 	return "?"
+}
+
+// unacked lists the content-related messages the servers sent that no received msgs_ack names yet.
+func (e *Env) unacked() []int64 {
+	evs := e.Hub.Snapshot()
+	acked := map[int64]bool{}
+	for _, ev := range evs {
+		if ev.Kind == "ack" {
+			for _, id := range ev.IDs {
+				acked[id] = true
+			}
+		}
+	}
+	var out []int64
+	for _, ev := range evs {
+		if ev.Kind == "sent" && ev.SeqNo&1 == 1 && !acked[ev.MsgID] && ev.Note != "raw" {
+			out = append(out, ev.MsgID)
+		}
+	}
+	return out
 }
